@@ -2644,6 +2644,7 @@ func (p *parser) parseLambdaExpr(allowTuple, allowCmd, allowRangeExpr bool) (x a
 		var rhs []ast.Expr
 		var body *ast.BlockStmt
 		var lhsHasParen, rhsHasParen bool
+		var last token.Pos // position just after the last token of the right-hand side
 		p.next()
 		switch p.tok {
 		case token.LPAREN: // (
@@ -2657,11 +2658,12 @@ func (p *parser) parseLambdaExpr(allowTuple, allowCmd, allowRangeExpr bool) (x a
 				}
 				p.next()
 			}
-			p.expect(token.RPAREN)
+			last = p.expect(token.RPAREN) + 1
 		case token.LBRACE: // {
 			body = p.parseBlockStmt()
 		default:
 			rhs = []ast.Expr{p.parseExpr(false, false, false)}
+			last = rhs[0].End()
 		}
 		var lhs []*ast.Ident
 		if x != nil {
@@ -2703,7 +2705,7 @@ func (p *parser) parseLambdaExpr(allowTuple, allowCmd, allowRangeExpr bool) (x a
 		}
 		return &ast.LambdaExpr{
 			First:       first,
-			Last:        p.pos,
+			Last:        last,
 			Lhs:         lhs,
 			Rarrow:      rarrow,
 			Rhs:         rhs,
